@@ -12,10 +12,10 @@ fn bytes_of(v: &Value) -> Vec<u8> {
     arr(v).iter().map(|b| b.as_u64().unwrap() as u8).collect()
 }
 
-pub fn replay_line(st: &mut Stats, line: &Value) {
+pub fn replay_line(st: &mut Stats, prop: &str, line: &Value) {
     st.cases += 1;
     let Ok(ont) = from_bytes(&bytes_of(&line["bytes"])) else {
-        st.violations.push(Violation { property: "EXTRA".into(), what: "cannot load ontology".into(), replay: json!({"cmd": "replay-setmeta", "property": "EXTRA", "diffs": []}) });
+        st.violations.push(Violation { property: prop.to_string(), what: "cannot load ontology".into(), replay: json!({"cmd": "replay-setmeta", "property": prop, "diffs": []}) });
         return;
     };
     let mut d: Vec<String> = vec![];
@@ -88,7 +88,7 @@ pub fn replay_line(st: &mut Stats, line: &Value) {
     }
     if !d.is_empty() && st.violations.len() < 4 {
         d.truncate(8);
-        st.violations.push(Violation { property: "EXTRA".into(), what: d[0].clone(), replay: json!({"cmd": "replay-setmeta", "property": "EXTRA", "diffs": d}) });
+        st.violations.push(Violation { property: prop.to_string(), what: d[0].clone(), replay: json!({"cmd": "replay-setmeta", "property": prop, "diffs": d}) });
     }
 }
 
@@ -100,9 +100,10 @@ pub fn run(args: &Args) {
         eprintln!("no REPLAY lines");
         std::process::exit(2);
     }
+    let prop = args.get("prop").unwrap_or("EXTRA").to_string();
     let mut st = Stats::default();
     for l in &lines {
-        guard_case(&mut st, "EXTRA", "replay-setmeta", l, |st| replay_line(st, l));
+        guard_case(&mut st, &prop, "replay-setmeta", l, |st| replay_line(st, &prop, l));
     }
     finish(st, args.req("out"), args.req("replay-dir"), json!({"lines": lines.len()}));
 }
